@@ -40,7 +40,19 @@ type ReplayFunc func(data json.RawMessage) (violated bool, what string, err erro
 var (
 	replayMu    sync.Mutex
 	replayFuncs = map[string]ReplayFunc{}
+	replayMin   = map[string]int{} // kinds that run real goroutines: re-executions (of 5) that must fail again
 )
+
+// RegisterReplayThreads registers the driver of a kind whose executions run the real goroutines of the library
+// (scheduled by the Go runtime inside a virtual-time bubble). The oracle of such a kind does not depend on the
+// schedule, but a defect may: a case found by the search and failing again in at least minFails of the 5
+// re-executions is reported (with the count).
+func RegisterReplayThreads(kind string, minFails int, f ReplayFunc) {
+	RegisterReplay(kind, f)
+	replayMu.Lock()
+	replayMin[kind] = minFails
+	replayMu.Unlock()
+}
 
 // RegisterReplay registers the sequential driver for a replay kind ("C01/seq", ...).
 func RegisterReplay(kind string, f ReplayFunc) {
@@ -258,8 +270,14 @@ func (c *Ctx) Finish() int {
 				fails++
 			}
 		}
+		replayMu.Lock()
+		min, threads := replayMin[r.Kind]
+		replayMu.Unlock()
 		switch {
 		case fails == 5:
+			confirmed = append(confirmed, r)
+		case threads && fails >= min && lastErr == nil:
+			r.What = fmt.Sprintf("(depends on the schedule of the library's own goroutines: failed again in %d of 5 re-executions) %s", fails, r.What)
 			confirmed = append(confirmed, r)
 		default:
 			c.engineErrs = append(c.engineErrs, fmt.Sprintf("violation %q not reproducible (%d/5 re-executions failed, err=%v): %s", r.Signature, fails, lastErr, r.What))
